@@ -1,6 +1,9 @@
 package doerner
 
 import (
+	"errors"
+
+	"github.com/taurusgroup/multi-party-sig/internal/round"
 	"github.com/taurusgroup/multi-party-sig/pkg/math/curve"
 	"github.com/taurusgroup/multi-party-sig/pkg/party"
 	"github.com/taurusgroup/multi-party-sig/pkg/pool"
@@ -40,6 +43,11 @@ func EmptyConfigSender(group curve.Curve) *ConfigSender {
 // a ConfigReceiver, but the Sender will get a ConfigSender instead.
 //
 // A pool can be passed to this function, to parallelize certain operations and improve performance.
+// startError returns a StartFunc that fails with err.
+func startError(err error) protocol.StartFunc {
+	return func([]byte) (round.Session, error) { return nil, err }
+}
+
 func Keygen(group curve.Curve, receiver bool, selfID, otherID party.ID, pl *pool.Pool) protocol.StartFunc {
 	return keygen.StartKeygen(group, receiver, selfID, otherID, nil, nil, pl)
 }
@@ -52,6 +60,9 @@ func Keygen(group curve.Curve, receiver bool, selfID, otherID party.ID, pl *pool
 // This won't change the value of the public key, but it will change the value of the chaining key.
 // If this isn't desirable, then the new chain key can simply be overwritten with the previous value.
 func RefreshReceiver(config *ConfigReceiver, selfID, otherID party.ID, pl *pool.Pool) protocol.StartFunc {
+	if config == nil || config.SecretShare == nil || config.Public == nil {
+		return startError(errors.New("doerner.RefreshReceiver: config is nil or incomplete"))
+	}
 	return keygen.StartKeygen(config.Group(), true, selfID, otherID, config.SecretShare, config.Public, pl)
 }
 
@@ -59,6 +70,9 @@ func RefreshReceiver(config *ConfigReceiver, selfID, otherID party.ID, pl *pool.
 //
 // See RefreshReceiver.
 func RefreshSender(config *ConfigSender, selfID, otherID party.ID, pl *pool.Pool) protocol.StartFunc {
+	if config == nil || config.SecretShare == nil || config.Public == nil {
+		return startError(errors.New("doerner.RefreshSender: config is nil or incomplete"))
+	}
 	return keygen.StartKeygen(config.Group(), false, selfID, otherID, config.SecretShare, config.Public, pl)
 }
 
@@ -71,6 +85,12 @@ func RefreshSender(config *ConfigSender, selfID, otherID party.ID, pl *pool.Pool
 //
 // A pool can be passed to this function, to parallelize certain operations and improve performance.
 func SignReceiver(config *ConfigReceiver, selfID, otherID party.ID, hash []byte, pl *pool.Pool) protocol.StartFunc {
+	if config == nil || config.Setup == nil || config.SecretShare == nil || config.Public == nil {
+		return startError(errors.New("doerner.SignReceiver: config is nil or incomplete"))
+	}
+	if len(hash) == 0 {
+		return startError(errors.New("doerner.SignReceiver: message hash is empty"))
+	}
 	return sign.StartSignReceiver(config, selfID, otherID, hash, pl)
 }
 
@@ -78,5 +98,11 @@ func SignReceiver(config *ConfigReceiver, selfID, otherID party.ID, hash []byte,
 //
 // See SignReceiver for more information.
 func SignSender(config *ConfigSender, selfID, otherID party.ID, hash []byte, pl *pool.Pool) protocol.StartFunc {
+	if config == nil || config.Setup == nil || config.SecretShare == nil || config.Public == nil {
+		return startError(errors.New("doerner.SignSender: config is nil or incomplete"))
+	}
+	if len(hash) == 0 {
+		return startError(errors.New("doerner.SignSender: message hash is empty"))
+	}
 	return sign.StartSignSender(config, selfID, otherID, hash, pl)
 }
